@@ -150,7 +150,12 @@ class Socket(base_socket.BaseSocket):
             return self.server._bad_request()
         ws = self.server._async['websocket'](
             self._websocket_handler, self.server)
-        return ws(environ, start_response)
+        try:
+            return ws(environ, start_response)
+        finally:
+            # an upgrade aborted by an exception (connection lost, packet too
+            # large or undecodable) must not leave polling on hold
+            self.upgrading = False
 
     def _websocket_handler(self, ws):
         """Engine.IO handler for websocket transport."""
